@@ -617,6 +617,12 @@ Lemma side_inhabited :
   /\ map fst (y_wraps ex_good) = [s "P"].
 Proof. vm_compute. repeat split; reflexivity. Qed.
 
+Lemma sealed_bound :
+  pkg_side ex_sealed = true /\ pkg_agreeb ex_sealed = true
+  /\ map fst (y_typs ex_sealed) = [s "Expr"; s "Stmt"] /\ map fst (g_typs ex_sealed) = [s "Expr"; s "Stmt"]
+  /\ y_wraps ex_sealed = [(s "Expr", mkYW (s "_vt_k_Expr") []); (s "Stmt", mkYW (s "_vt_k_Stmt") [])].
+Proof. vm_compute. repeat split; reflexivity. Qed.
+
 Lemma wrapper_inhabited :
   wf_iface ex_good_iface = true
   /\ yw_methods (y_wrap (s "_vt_k_") (s "P") ex_good_iface) =
